@@ -120,6 +120,26 @@ def load_known_findings():
         return json.load(fh)
 
 
+def split_violations(report):
+    """(new violations, [(instance, known-finding entry)], stale known keys)"""
+    kf = load_known_findings()
+    mine = [f for f in kf.get("findings", []) if f.get("property") == report.prop_id]
+    known_keys = {}
+    for f in mine:
+        c = f["construct"]
+        known_keys[(f["rule"], c["module"], c["qualname"], c["what"])] = f
+    matched = set()
+    new, known = [], []
+    for inst in report.violations():
+        k = inst.key()
+        if k in known_keys:
+            matched.add(k)
+            known.append((inst, known_keys[k]))
+        else:
+            new.append(inst)
+    return new, known, [k for k in known_keys if k not in matched]
+
+
 def finalize(report, tier, seed, t0, extra_coverage=None, selfval=None, quiet=False):
     """Apply the known-findings file, print the verdict lines, write evidence.
     Returns the exit status (0 or 1; stale known findings -> 2)."""
